@@ -118,7 +118,7 @@ ADDED = {
  "C09": "Also: receive ring >= queue capacity + 2; live append file touched only under the append mutex (a reproduced race was repaired); the ring examines all 16 id bytes. Pop tests continuity for every cursor and a cursor that does not get its position from the ring is positioned at ring.seq-1 before the answer (defect repaired: full transfer from an empty ring that overflows before the first Pop). The sender writes a record directly to the stream only with its batch buffer empty (flow-graph paths of one loop iteration, excluded by linear entailment over their size tests).",
  "C10": "Also: the follower's only local answer needs the concurrent-check flag and Timeout == 0; replayed holds are marked persisted independent of role. Server.handle re-dispatches the request a protocol object had already read when the role changed under it. The wake-up pass must test the role before granting (known finding: it does not).",
  "C11": "Also: a new ack table is recounted after publication; the queued timeout stays armed on the ack-pending wake-up path. ProcessLeaderPushLock tracks or fails a pending ack request on every return. The rollback clears the logged mark of every value object it restores. While the leader's flush and the followers' acknowledgements count down one counter, the required count exceeds the number of followers (known finding: majority mode with two or more followers does not need the leader's own write).",
- "C12": "Also: the outstanding-commit marker is cleared only at a closed list of points. The log-position comparator weighs the id bytes the way the log writes them, file index major (a reproduced ordering defect was repaired). The log-file list LoadMaxAofId scans for a member's restart position is snapshot-first.",
+ "C12": "Also: the outstanding-commit marker is cleared only at a closed list of points. The log-position comparator weighs the id bytes the way the log writes them, file index major (a reproduced ordering defect was repaired). The log-file list LoadMaxAofId scans for a member's restart position is snapshot-first. Every store that raises the committed number from a commit is followed by a save of the member state (known findings: none is - a restarted acceptor forgets the commit it answered).",
  "C13": "Also: parser upper bounds and the reply buffer's headroom by linear entailment; the recycled text reply is fully reassigned; fixed-capacity table indexes. Allocations sized by an integer decoded from the wire are bounded. Table indexes decoded from a client's message are bounded; slices of the stored frame bounded by request-supplied lengths stay within it; value-frame walkers are bounded by the frame (four reproduced crash inputs were repaired). GetValueOffset never points beyond the frame (reproduced crash inputs repaired).",
  "C14": "Also: parser cursors (two reproduced chunking defects repaired), key/id normaliser totality, converters define every wire field of the pooled command; no parser field is assigned from a loop-carried local; an empty list completes at the element-count line (defect repaired); the option loop ends after the rest of the arguments is handed to a nested conversion (defect repaired).",
  "C15": "Also: no aliasing of the stored value into results; the pre-operation value is read before it is cleared. Redis-style result writers say error only where the engine's result says so; a binary request's data frame is a private buffer. On a grant the key's depth is incremented before the value operation runs. No comparison mixes the request-type and value-operation enumerations (known finding: PIPELINE). Every allocated value frame that is handed on as a frame has its own length minus four stored in its first four bytes before the hand-over (29 allocations). The engine reads the stored bytes as an integer only under the NUMBER type mark (known finding: it does not - SET n 10, INCRBY n 1 answers 12338).",
